@@ -93,7 +93,7 @@ INTR = {'unicode.IsLetter': intr_isletter, 'unicode.IsDigit': intr_isdigit, 'str
 
 
 def printer_name_lemma(chk, prog):
-    MAXLEN = 5 if chk.thorough else 4
+    MAXLEN = 8 if chk.thorough else 6
 
     def harness(ex, ob):
         n = ex.choose(MAXLEN + 1)
@@ -359,6 +359,6 @@ if __name__ == '__main__':
     run_property(chk, prog, lambda T: [c08_create] if T.kind == 'create-sub' else [])
     update_filter(chk, prog)
     chk.assumptions += ['the parser verdict is an uninterpreted predicate filter_valid(string): WHICH strings participle accepts (and that it never crashes or hangs) is NOT decided by this check',
-                        'strconv.Quote is opaque; unicode.IsLetter/IsDigit restricted to ASCII; names are ASCII strings of length <= 4 (5 on thorough)',
+                        'strconv.Quote is opaque; unicode.IsLetter/IsDigit restricted to ASCII; names are ASCII strings of length <= 6 (8 on thorough)',
                         'printer lemma compares the written token sequence with a reference printer derived from the grammar tags']
     chk.finish()
